@@ -21,11 +21,11 @@ Transliteration of the configuration path of the `tackler` binary (`tackler-cli/
 | `effective`                   | `run` up to and including `cli.get_input_type(&settings)?`                 |
 | `selectsAll`                  | `ras.is_empty()` in `BalanceReporter::acc_selector`, `RegisterReporter::get_acc_selector`, `EquityExporter::get_acc_selector` |
 
-The model is the tree **with the proposed fixes F15, F191, F192, F193 applied** (see `fixes/`):
+The model is the tree **with the proposed fixes F15, F23, F24, F25 applied** (see `fixes/`):
 * F15  – `get_overlaps` drops empty patterns from `--accounts` (so `--accounts ""` is "all accounts");
-* F191 – the file's `report.commodity` is resolved only when `--report.commodity` is absent;
-* F192 – `--input.fs.ext` strips one leading `.` exactly as `kernel.input.fs.suffix` does;
-* F193 – `--input.fs.ext` conflicts with the `--input.git.*` options (as `--input.fs.dir` does). On the
+* F23 – the file's `report.commodity` is resolved only when `--report.commodity` is absent;
+* F24 – `--input.fs.ext` strips one leading `.` exactly as `kernel.input.fs.suffix` does;
+* F25 – `--input.fs.ext` conflicts with the `--input.git.*` options (as `--input.fs.dir` does). On the
   pinned tree clap waives "`ext` requires `dir`" when the missing `dir` conflicts with a present option
   (`Validator::is_missing_required_ok`), so `--input.fs.ext x --input.git.ref r` was accepted and `x` ignored.
 
@@ -396,7 +396,7 @@ def innerGetOrCreateCommodity (comms : List String) (permitEmpty strict : Bool) 
   else if strict then .err
   else .ok (n, comms ++ [n])
 
-/-- `cfg_rpt_commodity` then `report_commodity` of `try_from`. F191 (fixed): the file's commodity is
+/-- `cfg_rpt_commodity` then `report_commodity` of `try_from`. F23 (fixed): the file's commodity is
     resolved only when there is no overlap value. -/
 def reportCommodityOf (cfg : Cfg) (strict : Bool) (ov : Option String) : Outcome (Option String) :=
   match ov with
@@ -537,7 +537,7 @@ def getGitSelector (c : CliOpts) : Outcome (Option GitSel) :=
   | some _, some _ => .undef
 
 /-- `DefaultModeArgs::get_input_type`. The `expect`s on clap's `requires` are `undef` (excluded by
-    `clapAccepts`). F192 (fixed): the extension given on the command line is normalised like the file's. -/
+    `clapAccepts`). F24 (fixed): the extension given on the command line is normalised like the file's. -/
 def getInputType (env : Env) (cfg : Cfg) (c : CliOpts) : Outcome Input :=
   match getGitSelector c with
   | .err => .err
